@@ -96,7 +96,7 @@ def gen_struct(rng, idx, allow_nested=True):
             nested_src += (f"#[derive(Debug, Clone, PartialEq, Difference)]\n#[cfg_attr(feature = \"sd\", derive(serde::Serialize, serde::Deserialize))]\npub struct {nname} {{ pub x: i64, pub y: Option<String>, pub z: Vec<u8> }}\n"
                            f"impl Mk for {nname} {{ fn mk(s: u64) -> Self {{ {nname} {{ x: Mk::mk(s), y: Mk::mk(s + 1), z: Mk::mk(s / 2) }} }} }}\n")
             opt = rng.random() < 0.4
-            ty = f"Option<{nname}>" if opt else nname
+            ty = (rng.choice(["Option", "Option", "std::option::Option", "core::option::Option", "::std::option::Option"]) + f"<{nname}>") if opt else nname      # a path is a path: the qualified spellings too
             attr = rng.choice(['#[difference(recurse)]', '#[difference(recurse)]', '#[difference(recurse, setter)]', '#[difference(recurse,)]']) + '\n    '
             checks.append(f"        if r.{acc} != b.{acc} {{ return Err(format!(\"recurse field {fname}: {{:?}} != {{:?}}\", r.{acc}, b.{acc})); }}")
             feats.append('recurse_option' if opt else 'recurse'); all_skipped = False
@@ -290,7 +290,7 @@ def gen_parse_type(rng, depth):
     s = lambda: gen_parse_type(rng, depth - 1)
     ident = lambda: rng.choice(['T', 'U', 'u8', 'i64', 'String', 'Foo', 'r#type', 'Self'])
     if k == 'id': return ident(), True
-    if k == 'path': return rng.choice(['std::string::String', 'a::b::C', 'crate::X', 'core::primitive::u8']), True
+    if k == 'path': return rng.choice(['std::string::String', 'a::b::C', 'crate::X', 'core::primitive::u8', '::std::string::String', '::a::B']), True
     if k == 'generic': t, ok = s(); return f"{rng.choice(['Option', 'Vec', 'std::vec::Vec', 'Box'])}<{t}>", ok
     if k == 'generic2': (t, o1), (u, o2) = s(), s(); return f"{rng.choice(['HashMap', 'std::collections::BTreeMap', 'Result'])}<{t}, {u}>", o1 and o2
     if k == 'ref':
